@@ -335,7 +335,9 @@ def c_callee(s, k):
         o.append(f'  va_start(ap_, {last});')
     for i, p in enumerate(s.params):
         if i >= s.n_named:
-            o.append(f'  {p.cdecl(f"p{i}")} = va_arg(ap_, {p.cdecl("").strip()});')
+            # declaration + assignment: initialising a union from a union-typed expression is a different property (C05)
+            o.append(f'  {p.cdecl(f"p{i}")};')
+            o.append(f'  p{i} = va_arg(ap_, {p.cdecl("").strip()});')
         for path, lt, w, rid in args[i]:
             o.append('  ' + c_rec(f'p{i}{path}', lt, rid))
     if s.variadic:
